@@ -42,6 +42,7 @@ type c12Spec struct {
 	Dev       int
 	Big       bool // too large for preemption bounding in the quick tier
 	CancelOne bool // caller 0's own context is cancelled by another task at an arbitrary moment
+	TempR     bool // read faults include a temporary (non-timeout) error after which the connection works on
 	ExpireOne bool // caller 0's own context reaches its deadline (context.DeadlineExceeded) at an arbitrary moment
 	Expiry    bool // write faults include "the write deadline has passed"; caller 0 carries a context deadline
 }
@@ -149,6 +150,7 @@ func c12Scenario(sp c12Spec) *explore.Scenario {
 			}
 			st.cli.SetFaulty(spec.FaultR, spec.FaultW)
 			st.cli.ExpiryFaults = spec.Expiry
+			st.cli.TempReadFaults = spec.TempR
 			if spec.CancelAll {
 				vsched.Go("cancel-session", func() { st.cancel() })
 			}
@@ -244,6 +246,15 @@ func c12Check(state any, e *vsched.Exec) (string, []explore.Finding) {
 			bad("wrong-result", "call %d returned data=%q without error: neither its own reply nor an error", res.ID, res.Data)
 		}
 	}
+	if st.spec.TempR && !st.cli.Faulted() {
+		// nothing but (at most) a temporary read error happened: the
+		// connection is fine and every call gets its own result
+		for _, res := range st.calls {
+			if res.Returned && res.Err != "" && !ownResult(res) {
+				bad("disturbed:temporary-read-error", "call %d returned error %q although the connection only reported a temporary (non-timeout) read error and the peer answered everything", res.ID, res.Err)
+			}
+		}
+	}
 	if st.cli.StaleExpiry > 0 {
 		bad("disturbed:stale-write-deadline", "a request was written under a write deadline that an earlier call had armed and that was not renewed: once that deadline has passed the request times out although its own call has no deadline and the connection is healthy (%d such write(s))", st.cli.StaleExpiry)
 	}
@@ -290,6 +301,7 @@ func c12Specs() []c12Spec {
 		{Name: "call-cancel-sync", Pending: 3, Late: true, CancelOne: true, Sync: true, Big: true, Expect: map[int]string{10: "own", 20: "own", 90: "own"}},
 		{Name: "read-faults", Pending: 2, Late: true, FaultR: true, Dev: 1, Big: true},
 		{Name: "read-faults-1", Pending: 1, Late: true, FaultR: true, Dev: 1},
+		{Name: "read-temporary-error", Pending: 1, Late: true, FaultR: true, TempR: true, Dev: 1},
 		{Name: "write-faults", Pending: 2, Late: true, FaultW: true, Dev: 1},
 		{Name: "write-faults-sync", Pending: 2, FaultW: true, Dev: 1, Sync: true},
 		{Name: "write-deadline-expiry", Pending: 2, Late: true, FaultW: true, Expiry: true, Dev: 1},
